@@ -125,6 +125,18 @@ def run_weak(chk, spec):
 		"cast-date-from-iso": lambda: Vector([None if x is None else "2020-01-%02d" % (1 + abs(hash(str(x))) % 28) for x in vals]).cast(date),
 		"cast-datetime-from-iso": lambda: Vector([None if x is None else "2020-01-%02dT05:00:00" % (1 + abs(hash(str(x))) % 28) for x in vals]).cast(datetime),
 		"cast-date-of-dates": lambda: Vector([None if x is None else V.D0 for x in vals]).cast(date),
+		"cast-date-of-datetimes": lambda: Vector([None if x is None else datetime(2020, 1, 31, 5 + i % 7, 30) for i, x in enumerate(vals)]).cast(date),
+		"cast-datetime-of-dates": lambda: Vector([None if x is None else V.D0 for x in vals]).cast(datetime),
+		"promoted-date-plus-int": lambda: (lambda d: (d.__setitem__(0, datetime(2020, 1, 31, 12, 30)), d + 1)[1])(Vector([V.D0] * max(n, 1))),
+		"promoted-date-plus-intvec": lambda: (lambda d: (d.__setitem__(0, datetime(2020, 1, 31, 12, 30)), d + Vector([1] * len(d)))[1])(Vector([V.D0] * max(n, 1))),
+		"promoted-date-minus-timedelta": lambda: (lambda d: (d.__setitem__(0, datetime(2020, 1, 31, 12, 30)), d - timedelta(hours=1))[1])(Vector([V.D0] * max(n, 1))),
+		"promoted-int-abs": lambda: (lambda d: (d.__setitem__(0, 3 + 4j), abs(d))[1])(Vector([1] * max(n, 1))),
+		"promoted-int-neg": lambda: (lambda d: (d.__setitem__(0, 2.5), -d)[1])(Vector([1] * max(n, 1))),
+		"promoted-int-invert-free": lambda: (lambda d: (d.__setitem__(0, 2.5), +d)[1])(Vector([1] * max(n, 1))),
+		"zero-plus-bool": lambda: 0 + Vector([True, False][:max(1, min(n, 2))]),
+		"false-plus-bool": lambda: False + Vector([True, False][:max(1, min(n, 2))]),
+		"sum-of-bool-vectors": lambda: sum([Vector([True, False]), Vector([True, True])]),
+		"zero-plus-numeric-holding-bool": lambda: 0 + Vector([True, 2.5, -0.0]),
 		"new-empty": lambda: Vector.new(w, 0),
 		"new-empty-typesafe": lambda: Vector.new(w, 0, typesafe=True) << [w],
 		"fillna-same": lambda: v.fillna(rng.choice(common.ARITH_VALUES[kind])),
@@ -300,7 +312,8 @@ def run_history(chk, spec):
 RUNNERS = {"rows": run_rows, "unusual": run_unusual, "weak": run_weak, "assign": run_assign, "history": run_history, "recompute": recompute.runner("C03")}
 
 WEAK_OPS = ["radd-scalar", "radd-list", "rsub-scalar", "rmul-scalar", "rtruediv", "rpow", "add-wider-scalar", "add-wider-vector", "neg", "pos", "abs", "invert",
-	"lshift-wider", "lshift-none", "lshift-str", "lshift-list-mixed", "lshift-vector", "rlshift", "cast-str", "cast-float", "cast-int", "cast-bool", "cast-callable", "cast-date-from-iso", "cast-datetime-from-iso", "cast-date-of-dates", "new-empty", "new-empty-typesafe",
+	"lshift-wider", "lshift-none", "lshift-str", "lshift-list-mixed", "lshift-vector", "rlshift", "cast-str", "cast-float", "cast-int", "cast-bool", "cast-callable", "cast-date-from-iso", "cast-datetime-from-iso", "cast-date-of-dates", "cast-date-of-datetimes", "cast-datetime-of-dates", "promoted-date-plus-int", "promoted-date-plus-intvec", "promoted-date-minus-timedelta", "promoted-int-abs", "promoted-int-neg",
+	"promoted-int-invert-free", "zero-plus-bool", "false-plus-bool", "sum-of-bool-vectors", "zero-plus-numeric-holding-bool", "new-empty", "new-empty-typesafe",
 	"fillna-same", "fillna-wider", "fillna-none", "fillna-integral-wider", "lshift-vector-none", "lshift-vector-same", "and-int", "or-vector", "xor-list",
 	"new-equal-narrower-first", "agg-stdev", "win-stdev", "dropna", "isna", "unique", "sort", "to_object", "T", "slice", "mask", "pluck", "new", "new-typesafe", "new-none-typesafe", "new-none", "isinstance",
 	"compare", "matmul-table", "table-sum", "table-max", "table-mean"]
